@@ -1497,11 +1497,14 @@ def _get_resources_by_hrefs(
     Returns: iterator over (href, resource) tuples
     """
     paths: dict[str, str] = {}
+    unresolvable = set()
     for href in hrefs:
         path = href_to_path(environ, href)
         if path is not None:
             paths[path] = href
-        else:
+        elif href not in unresolvable:
+            # answer a repeated href once, like the resolvable ones
+            unresolvable.add(href)
             yield (href, None)
 
     for relpath, resource in backend.get_resources(paths):
